@@ -541,12 +541,21 @@ fn fresh(size: usize, be: bool, rng: &mut Rng, annotate: bool) -> (BinArchive, R
 fn grid_case(c: &mut Case, size: usize, be: bool) {
     let mut rng = Rng::new(size as u64 * 2 + be as u64); // seed-independent: this part is exhaustive
     let (mut real, mut model) = fresh(size, be, &mut rng, true);
-    let mut addrs: Vec<usize> = if size <= 300 {
+    let mut addrs: Vec<usize> = if cfg!(miri) {
+        let mut a = vec![0, 1, size.saturating_sub(1), size, size + 1, size + 4];
+        a.sort();
+        a.dedup();
+        a
+    } else if size <= 300 {
         (0..=size + 8).collect()
     } else {
         (0..=8).chain(size - 8..=size + 8).collect()
     };
-    addrs.extend(huge_addrs());
+    if cfg!(miri) {
+        addrs.extend([usize::MAX, usize::MAX - 3, 1usize << 32]);
+    } else {
+        addrs.extend(huge_addrs());
+    }
     let mut n = 0u64;
     for &a in &addrs {
         for stream in [false, true] {
@@ -591,7 +600,9 @@ fn grid_case(c: &mut Case, size: usize, be: bool) {
             }
         }
         // read_bytes / write_bytes length grid
-        let mut lens: Vec<usize> = if size <= 16 {
+        let mut lens: Vec<usize> = if cfg!(miri) {
+            vec![0, 1, size, size + 1]
+        } else if size <= 16 {
             (0..=size + 4).collect()
         } else {
             let d = size.saturating_sub(a.min(size));
@@ -599,7 +610,11 @@ fn grid_case(c: &mut Case, size: usize, be: bool) {
             l.extend(d.saturating_sub(2)..=d + 2);
             l
         };
-        lens.extend(huge_addrs());
+        if cfg!(miri) {
+            lens.extend([usize::MAX, usize::MAX - 3]);
+        } else {
+            lens.extend(huge_addrs());
+        }
         for &len in &lens {
             for stream in [false, true] {
                 if stream && len > 1 << 20 && a < size {
@@ -679,7 +694,7 @@ pub const REQUIRED: &[&str] = &["grid", "empty_archive", "writer_write_bytes_pas
 pub fn run(cx: &mut Ctx) {
     cx.require(REQUIRED);
     cx.rule = "exhaustive boundary grid: archive sizes {0..=9,16,255,256,4096} x both endiannesses x every positional and stream accessor x addresses {0..=size+8} u {2^31,2^32,isize::MAX (+-4), usize::MAX-8..=usize::MAX} x read_bytes/write_bytes lengths {0..=size+4} u the same huge set; plus random histories mixing positional and stream calls. Every call is compared with the reference model (bounds rule in u128, endian layout, value read-back by bits) and the full archive state (verif_snapshot hook) is compared before/after. non-trivial = distinct (accessor, stream?, endian, size, address class, outcome) tuples".into();
-    let sizes: Vec<usize> = if cfg!(miri) { vec![0, 1, 3, 4, 5, 8, 9] } else { (0..=9).chain([16, 255, 256, 4096]).collect() };
+    let sizes: Vec<usize> = if cfg!(miri) { vec![0, 4, 5] } else { (0..=9).chain([16, 255, 256, 4096]).collect() };
     for &size in &sizes {
         for be in [false, true] {
             cx.case("grid", |c| grid_case(c, size, be));
@@ -722,7 +737,7 @@ pub fn run(cx: &mut Ctx) {
             };
             let be = rng.bool();
             let (mut real, mut model) = fresh(size, be, &mut rng, true);
-            let len = rng.range(10, 80);
+            let len = if cfg!(miri) { rng.range(5, 20) } else { rng.range(10, 80) };
             let mut hist = Vec::new();
             for _ in 0..len {
                 let (op, stream) = gen_op(&mut rng, &model);
